@@ -1305,3 +1305,82 @@ Proof.
   - unfold enc_subframe. rewrite Ew. unfold sf_bits, write_subframe. cbn [sf_wasted sf_body].
     rewrite app_length, header_bits, wr_s_length. cbn [N.eqb]. lia.
 Qed.
+
+From FlacCodec Require Import StreamRd StreamRd_proofs.
+(* ---------------- C16 for the encoder as written: frames whose header codes do not refer to STREAMINFO
+   (what FlacStreamWriter insists on) decode from their own bytes alone ---------------- *)
+Lemma wf_header_subset i h : wf_header (Some i) h = true -> h_rate_code h <> 0 -> h_bps_code h <> 0 ->
+  wf_header None h = true.
+Proof.
+  unfold wf_header. intros H Hr Hb.
+  apply N.eqb_neq in Hr, Hb. rewrite Hr, Hb in *.
+  destruct (rate_of_code (h_rate_code h)), (bps_of_code (h_bps_code h)); exact H.
+Qed.
+
+Lemma write_frame_sync f bytes : write_frame f = Some bytes ->
+  exists b2 tl, bytes = 255 :: b2 :: tl /\ b2 / 2 = 124.
+Proof.
+  unfold write_frame. destruct (write_header_fields (f_hdr f)) as [hb|] eqn:Eh; [|discriminate].
+  unfold write_header_fields in Eh. destruct (write_number _) as [num|]; [|discriminate].
+  set (x := wr 4 (h_bs_code (f_hdr f)) ++ _) in Eh. cbn [app] in Eh.
+  change (wr 15 SYNC_CODE) with [true;true;true;true;true;true;true;true;true;true;true;true;true;false;false] in Eh.
+  cbn [app] in Eh. apply (f_equal (fun o => match o with Some v => v | None => [] end)) in Eh. subst hb.
+  set (vb := h_variable (f_hdr f)).
+  match goal with |- context [length ?l] => assert (El : (length l / 8 = S (S (length x / 8)))%nat) end.
+  { cbn [length]. change (S (S (S (S (S (S (S (S (S (S (S (S (S (S (S (S (length x)))))))))))))))))%nat with (2 * 8 + length x)%nat.
+    rewrite Nat.div_add_l by lia. lia. }
+  cbv zeta. rewrite El. intros H. injection H as <-.
+  cbn [app bytes_of_bits rd rd_acc].
+  eexists. eexists. split; [reflexivity|]. destruct vb; reflexivity.
+Qed.
+
+(* the shape of a block, without reference to any STREAMINFO *)
+Definition block_shape (bps : N) (chans : list (list Z)) : Prop :=
+  (1 <= length chans <= 8)%nat /\ 1 <= bps /\ bps <= 32 /\
+  exists n, 1 <= n /\ n <= 65535 /\
+    Forall (fun c => N.of_nat (length c) = n /\ forallb (fits bps) c = true) chans.
+
+Theorem enc_frame_self_describing o L rate bps number chans bytes rest rc :
+  enc_frame_bytes o L rate bps number chans = Some bytes ->
+  block_shape bps chans -> number <= MAX_FRAME_NUMBER ->
+  code_of_rate rate = Some rc -> rc <> 0 -> code_of_bps bps <> 0 ->
+  exists h, dec_frame None no_check (bytes ++ rest) = Ok (h, chans, rest) /\
+            h_rate h = rate /\ h_bps h = bps /\ h_number h = number /\ h_bs h = block_len chans.
+Proof.
+  unfold enc_frame_bytes. intros H (Hch & Hb1 & Hb32 & n & Hn1 & Hn2 & Hall) Hnum Erc Hrc Hbc.
+  destruct (enc_frame o L rate bps number chans) as [f|] eqn:Ef; [|discriminate].
+  set (si := {| si_min_bs := 16; si_max_bs := 65535; si_min_fs := 0; si_max_fs := 0; si_rate := rate;
+                si_channels := N.of_nat (length chans); si_bps := bps; si_total := 0; si_md5 := [] |}).
+  assert (Hb : block_ok si bps chans).
+  { split; [exact Hch|]. split; [exact Hb1|]. split; [exact Hb32|]. split; [reflexivity|]. split; [reflexivity|].
+    exists n. split; [exact Hn1|]. split; [exact Hn2|]. split; [exact Hn2|]. exact Hall. }
+  destruct (enc_frame_ok _ _ si _ _ _ _ _ Ef Hb eq_refl Hnum) as (Hwf & Hsp & Hsem & Hnu & Hbs).
+  assert (Hhdr : h_rate_code (f_hdr f) = rc /\ h_bps_code (f_hdr f) = code_of_bps bps /\
+                 h_rate (f_hdr f) = rate /\ h_bps (f_hdr f) = bps).
+  { unfold enc_frame in Ef. rewrite Erc in Ef. destruct chans as [|c0 r]; [discriminate|].
+    cbv zeta in Ef. injection Ef as <-. cbn. auto. }
+  destruct Hhdr as (E1 & E2 & E3 & E4).
+  assert (Hwf' : wf_frame None f = true).
+  { unfold wf_frame in *. apply andb_prop in Hwf. destruct Hwf as [Hwf _].
+    apply andb_prop in Hwf. destruct Hwf as [Hwf W3]. apply andb_prop in Hwf. destruct Hwf as [W1 W2].
+    rewrite (wf_header_subset si (f_hdr f) W1) by congruence. rewrite W2, W3. reflexivity. }
+  exists (f_hdr f). rewrite <- Hsem. split; [apply dec_frame_agree; auto|].
+  rewrite Hsem. auto.
+Qed.
+
+(* ... and FlacStreamReader's scan finds it behind any bytes that do not contain the sync pattern *)
+Theorem enc_frame_scanned o L rate bps number chans bytes rest rc g fuel :
+  enc_frame_bytes o L rate bps number chans = Some bytes ->
+  block_shape bps chans -> number <= MAX_FRAME_NUMBER ->
+  code_of_rate rate = Some rc -> rc <> 0 -> code_of_bps bps <> 0 ->
+  StreamRd_proofs.syncless g = true -> (length (g ++ bytes ++ rest) < fuel)%nat ->
+  exists h, scan fuel (g ++ bytes ++ rest) = Ok (h, chans, rest) /\
+            h_rate h = rate /\ h_bps h = bps /\ h_number h = number /\ h_bs h = block_len chans.
+Proof.
+  intros H Hs Hn Erc Hrc Hbc Hg Hf.
+  destruct (enc_frame_self_describing _ _ _ _ _ _ _ rest _ H Hs Hn Erc Hrc Hbc) as (h & Hd & Hrest).
+  exists h. split; [|exact Hrest].
+  unfold enc_frame_bytes in H. destruct (enc_frame o L rate bps number chans) as [f|]; [|discriminate].
+  destruct (write_frame_sync _ _ H) as (b2 & tl & -> & Hb2).
+  cbn [app] in *. apply StreamRd_proofs.scan_skips_syncless; auto.
+Qed.
